@@ -290,6 +290,12 @@ AlgNew(T, x) ==
   IF chk.r = "raise" THEN chk
   ELSE LET c == AlgCast(T.base, x) IN IF c.r = "raise" THEN c ELSE Ok(Val(T.base, c.v, << >>))
 AlgOutcome(T, x) == AlgNew(T, x).v
+\* which statement of validation_fn decided (emitted per case, so that a run can show that every branch was exercised)
+AlgBranch(T, x) ==
+  IF x.k = "bool" THEN "160-bool"
+  ELSE IF T.base = "int" /\ x.k = "float" /\ ~FloatIsInteger(x.v) THEN "162-not-integer"
+  ELSE IF AlgCast(T.base, x).r = "raise" THEN "164-cast-" \o AlgCast(T.base, x).exc
+  ELSE IF AlgValidate(T, x).r = "raise" THEN "166-restriction" ELSE "94-accepted"
 
 \* restricted_number_type up to the creation of the class, typing.py:125-139
 AlgCreates(T) ==
@@ -340,7 +346,17 @@ AlgParse(NewOp(_), x, ld) ==
   ELSE LET first  == IF x.k = "str" /\ ld # "text" THEN AlgDeser(NewOp(Other(ld))) ELSE AlgDeser(NewOp(x))   \* :582
            second == IF first.r = "raise" /\ first.exc = "ValueError" /\ x.k = "str" THEN AlgDeser(NewOp(x)) ELSE first   \* :583-597
        IN second
-\* Ref: a value is accepted through a parser iff the type accepts it (a command-line text is a str)
+\* which path of _check_type decided
+AlgParseBranch(NewOp(_), x, ld) ==
+  IF x.k = "str" /\ ld = "crash" THEN "563-loader-crash"
+  ELSE LET first == IF x.k = "str" /\ ld # "text" THEN AlgDeser(NewOp(Other(ld))) ELSE AlgDeser(NewOp(x)) IN
+       IF first.r = "ok" THEN "582-first-attempt"
+       ELSE IF first.exc # "ValueError" THEN "escapes-" \o first.exc
+       ELSE IF x.k # "str" THEN "596-rejected-not-text"
+       ELSE IF AlgDeser(NewOp(x)).r = "ok" THEN "590-second-attempt" ELSE "596-rejected"
+\* Ref: through a parser a value is accepted iff the type accepts it, with the same result (a command-line text is a
+\* str): the Ref outcome of the channels "object" and "cli" is RefOutcome / RefStrOutcome itself.
+\* (Not modelled: a value whose class already IS the type is passed through unchanged, _typehints.py:804.)
 
 (***************************************************************************)
 (* Part 6.  Reading back what was written.                                 *)
@@ -414,7 +430,7 @@ DumperTag(t) == ResolveFrom(StockResolvers, t, 1)       \* what safe_dump thinks
 LoaderTag(t) == ResolveFrom(LoaderResolvers, t, 1)      \* what jsonargparse's loader makes of a plain t
 
 \* ---- texts on which load_value raises instead of returning (named deviation "loader-crash") ----
-\* (a) yaml_load, _loaders_dumpers.py:86-97: a text that YAML reads as a one-key mapping with a null value ("key:" or
+\* (a) yaml_load, _loaders_dumpers.py:85-97: a text that YAML reads as a one-key mapping with a null value ("key:" or
 \*     "{key}") is meant to be kept as a string, but `stream.strip() == key + ":"` raises TypeError when the key was
 \*     resolved to a bool / int / float / null
 \* (b) PyYAML's constructors fail on a scalar that the resolver patterns accept but that has no digit:
@@ -424,11 +440,11 @@ HasChar(t, c) == \E p \in 1..Len(t) : t[p] = c
 FloatCtorCrash(u) == /\ LoaderTag(u) = "float" /\ ~HasChar(u, ":") /\ ~FullMatch(Alt(<<InfAlt, NanAlt>>), u)
                      /\ ~IsPyFloat(Without(u, {"_"}))
 IntCtorCrash(u) == FullMatch(Cat(<<PM, Chr({"0"}), Chr({"b", "x"}), Plus(Chr({"_"}))>>), u)
-KeyColonCrash(u) == Len(u) >= 2 /\ u[Len(u)] = ":" /\ NonStrKey(SubSeq(u, 1, Len(u) - 1))
-FlowKeyCrash(u) == Len(u) >= 3 /\ u[1] = "{" /\ u[Len(u)] = "}" /\ NonStrKey(SubSeq(u, 2, Len(u) - 1))
+KeyColonCrash(u) == Len(u) >= 2 /\ u[Len(u)] = ":" /\ NonStrKey(Strip(SubSeq(u, 1, Len(u) - 1)))          \* YAML strips the blanks around a plain key
+FlowKeyCrash(u) == Len(u) >= 3 /\ u[1] = "{" /\ u[Len(u)] = "}" /\ NonStrKey(Strip(SubSeq(u, 2, Len(u) - 1)))
 LoaderCrash(t) == LET u == Strip(t) IN
                   u # << >> /\ (FloatCtorCrash(u) \/ IntCtorCrash(u) \/ KeyColonCrash(u) \/ FlowKeyCrash(u)
-                                \/ (Len(u) >= 2 /\ u[Len(u)] = ":" /\ (FloatCtorCrash(SubSeq(u, 1, Len(u) - 1)) \/ IntCtorCrash(SubSeq(u, 1, Len(u) - 1)))))
+                                \/ (Len(u) >= 2 /\ u[Len(u)] = ":" /\ LET key == Strip(SubSeq(u, 1, Len(u) - 1)) IN key # << >> /\ (FloatCtorCrash(key) \/ IntCtorCrash(key))))
 
 Str(t) == [k |-> "str", t |-> t, n |-> NoNum]
 Flt(n) == [k |-> "float", t |-> << >>, n |-> n]
